@@ -1,48 +1,55 @@
 /-
-Model of a reactive expression that pipes through a coroutine (C10, second half):
-`r = param.rx(v0); e = r.rx.pipe(slow); e.rx.watch(log.append)` where every call of `slow`
-returns a coroutine awaiting a hand-made future.
+Model of a reactive expression that pipes through a coroutine or an async generator (C10, second
+half): `r = param.rx(v0); e = r.rx.pipe(fn); e.rx.watch(log.append)` where every call of `fn`
+returns a coroutine awaiting one hand-made future, or an async generator awaiting `nf` of them and
+yielding each result.
 
 Anchored code (param/reactive.py), AS WRITTEN:
-  * `rx._resolve`: when dirty, evaluates the operation; a coroutine result goes to `_lazy_resolve`
-    (→ `async_executor(partial(self._resolve_async, obj))`) and the *old* `_current_` is returned;
+  * `rx._resolve`: when dirty, evaluates the operation; a coroutine / async generator result goes to
+    `_lazy_resolve` (→ `async_executor(partial(self._resolve_async, obj))`) and the *old*
+    `_current_` is returned;
   * `rx._resolve_async`: `self._current_task = task = asyncio.current_task()` at the START of the
-    task; `value = await obj`; the result is stored (and the trigger fired) only
-    `if self._current_task is task`;
+    task; coroutine: `value = await obj; if self._current_task is task: store, trigger`;
+    async generator: `async for val in obj: if self._current_task is not task: break; store, trigger`
+    — the test comes after the await and BEFORE the store in both branches, so a coroutine is the
+    one-awaitable instance of the loop below;
   * `rx._invalidate_current` (sets `_dirty`), `rx._watch` (the callback receives `_resolve()`'s value).
 asyncio as in Async/Model.lean (FIFO ready queue; no task is ever cancelled here).
 
-Events of a schedule: `set r` = `r.rx.value = <new input>` whose evaluation will return `r`;
-`tick`; `complete t r` = `fut_t.set_result(r)`.  Evaluation number `t` is the t-th call of `slow`:
-number 0 comes from the first read of `e.rx.value`, number i from the i-th `set`.
+Events of a schedule: `set` = `r.rx.value = <new input>` (one more evaluation); `tick`;
+`complete t k r` = `fut_(t,k).set_result(r)`.  Evaluation number `t` is the t-th call of `fn`:
+number 0 comes from the first read of `e.rx.value`, number i from the i-th `set`.  `nf` = number of
+awaitables per evaluation (1 for a coroutine function).
 -/
 namespace ParamVerif.Async.Rx
 
+abbrev Fid := Nat × Nat
+
 inductive Event
-  | set (r : Int)
+  | set
   | tick
-  | complete (t : Nat) (r : Int)
+  | complete (t k : Nat) (r : Int)
   deriving Repr, DecidableEq
 
 inductive Fut | pending (waiter : Option Nat) | done (v : Int)
   deriving Repr, DecidableEq
 
-inductive Pc | start | awaiting | finished
+inductive Pc | start | awaiting (k : Nat) | finished
   deriving Repr, DecidableEq
 
 structure St where
   cur : Option Int                 -- `_current_` (none = Undefined)
   currentTask : Option Nat         -- `_current_task`
-  nTasks : Nat                     -- calls of `slow` so far
+  nTasks : Nat                     -- calls of `fn` so far
   pcs : Nat → Option Pc
-  futs : Nat → Fut
+  futs : Fid → Fut
   ready : List Nat                 -- tasks with a step queued (start or wake-up)
   log : List (Option Int)          -- what the `.rx.watch` callback received
-  holder : Option Nat              -- ghost (never read): the evaluation whose result `cur` holds
+  holder : Option Fid              -- ghost (never read): the awaitable whose result `cur` holds
 
-def upd {α : Type} (m : Nat → α) (k : Nat) (v : α) : Nat → α := fun i => if i = k then v else m i
+def upd {κ α : Type} [DecidableEq κ] (m : κ → α) (k : κ) (v : α) : κ → α := fun i => if i = k then v else m i
 
-/-- `_lazy_resolve`: the coroutine of a new evaluation is handed to the executor -/
+/-- `_lazy_resolve`: the awaitable of a new evaluation is handed to the executor -/
 def spawn (s : St) : St :=
   { s with nTasks := s.nTasks + 1, pcs := upd s.pcs s.nTasks (some .start), ready := s.ready ++ [s.nTasks] }
 
@@ -52,109 +59,127 @@ def St.init : St :=
   spawn { cur := none, currentTask := none, nTasks := 0, pcs := fun _ => none, futs := fun _ => .pending none,
           ready := [], log := [], holder := none }
 
-/-- the guarded store of `_resolve_async` followed by `_trigger.param.trigger('value')` -/
-def apply (s : St) (t : Nat) (v : Int) : St :=
-  if s.currentTask = some t then { s with cur := some v, log := s.log ++ [some v], holder := some t } else s
+/-- the body of `_resolve_async` from its k-th await on (`r` awaitables to go, `k = nf - r`): a done
+future does not suspend; after each await the task tests `_current_task is task` — superseded: it
+stops (coroutine: nothing stored; generator: `break`) — and only then stores and triggers -/
+def rxLoop (t nf : Nat) : Nat → St → St
+  | 0, s => { s with pcs := upd s.pcs t (some .finished) }
+  | r + 1, s =>
+    match s.futs (t, nf - (r + 1)) with
+    | .done v =>
+      if s.currentTask = some t then
+        rxLoop t nf r { s with cur := some v, log := s.log ++ [some v], holder := some (t, nf - (r + 1)) }
+      else { s with pcs := upd s.pcs t (some .finished) }
+    | .pending _ =>
+      { s with pcs := upd s.pcs t (some (.awaiting (nf - (r + 1)))),
+               futs := upd s.futs (t, nf - (r + 1)) (.pending (some t)) }
 
-def stepReady (s : St) : St :=
+def stepReady (nf : Nat) (s : St) : St :=
   match s.ready with
   | [] => s
   | t :: rest =>
     let s1 := { s with ready := rest }
     match s1.pcs t with
-    | some .start =>
-      -- self._current_task = task; value = await obj
-      let s2 := { s1 with currentTask := some t }
-      match s2.futs t with
-      | .done v => apply { s2 with pcs := upd s2.pcs t (some .finished) } t v
-      | .pending _ => { s2 with pcs := upd s2.pcs t (some .awaiting), futs := upd s2.futs t (.pending (some t)) }
-    | some .awaiting =>
-      match s1.futs t with
-      | .done v => apply { s1 with pcs := upd s1.pcs t (some .finished) } t v
+    | some .start => rxLoop t nf nf { s1 with currentTask := some t }     -- self._current_task = task
+    | some (.awaiting k) =>
+      match s1.futs (t, k) with
+      | .done _ => rxLoop t nf (nf - k) s1
       | .pending _ => s1
     | _ => s1
 
-def drain : Nat → St → St
+def drain (nf : Nat) : Nat → St → St
   | 0, s => s
-  | n + 1, s => if s.ready.isEmpty then s else drain n (stepReady s)
+  | n + 1, s => if s.ready.isEmpty then s else drain nf n (stepReady nf s)
 
-def applyEvent (s : St) : Event → St
-  | .set _ =>
+def applyEvent (nf : Nat) (s : St) : Event → St
+  | .set =>
     -- input changed: `_invalidate_current`; the watch callback resolves: new evaluation scheduled,
     -- `Skip` → the callback is handed the old `_current_`
     let s1 := spawn s
     { s1 with log := s1.log ++ [s1.cur] }
-  | .tick => drain (s.ready.length + 1) s
-  | .complete t r =>
-    match s.futs t with
+  | .tick => drain nf (s.ready.length + 1) s
+  | .complete t k r =>
+    match s.futs (t, k) with
     | .pending w =>
-      let s1 := { s with futs := upd s.futs t (.done r) }
+      let s1 := { s with futs := upd s.futs (t, k) (.done r) }
       match w with
       | some u => { s1 with ready := s1.ready ++ [u] }
       | none => s1
     | .done _ => s
 
-def run (evs : List Event) : St := evs.foldl applyEvent St.init
+def run (nf : Nat) (evs : List Event) : St := evs.foldl (applyEvent nf) St.init
 
 /-! ### observation and oracle -/
 
 structure Obs where
   value : Option Int
   log : List Int                   -- `Undefined` deliveries are not recorded
-  calls : Nat                      -- evaluations whose coroutine has started
+  calls : Nat                      -- evaluations whose awaitable has started
   deriving Repr, DecidableEq
 
 def observe (s : St) (logFrom : Nat) : Obs :=
   { value := s.cur, log := (s.log.drop logFrom).filterMap id,
     calls := ((List.range s.nTasks).filter fun t => s.pcs t != some .start).length }
 
-/-- result of evaluation `t`: evaluation 0 belongs to the construction, i+1 to the i-th `set` -/
-def resultsOf (evs : List Event) : List Int :=
-  evs.filterMap fun | .set r => some r | _ => none
+/-- evaluations requested so far: one for the construction, one per `set` -/
+def nEvals (evs : List Event) : Nat := (evs.filter fun e => e == .set).length + 1
 
-def completedIn (evs : List Event) (t : Nat) : Option Int :=
-  evs.findSome? fun | .complete u r => if u = t then some r else none | _ => none
+def completedIn (evs : List Event) (f : Fid) : Option Int :=
+  evs.findSome? fun | .complete t k r => if (t, k) = f then some r else none | _ => none
 
-/-- evaluations `0 … n` have all been completed -/
-def allCompleted (evs : List Event) : Bool :=
-  (List.range ((resultsOf evs).length + 1)).all fun t => (completedIn evs t).isSome
+/-- the awaitable whose completion produced `v` (results are pairwise distinct in generated cases) -/
+def sourceOf (nf : Nat) (evs : List Event) (v : Int) : Option Fid :=
+  ((List.range (nEvals evs)).flatMap fun t => (List.range nf).map fun k => (t, k)).find? fun f =>
+    completedIn evs f = some v
 
-/-- index of the evaluation that produced `v` (results are pairwise distinct in generated cases) -/
-def evalOf (evs : List Event) (v : Int) : Option Nat :=
-  (List.range ((resultsOf evs).length + 1)).find? fun t => completedIn evs t = some v
+/-- how many awaitables of evaluation `t` have completed, counted from the first without a gap -/
+def prefixDone (nf : Nat) (evs : List Event) (t : Nat) : Nat :=
+  ((List.range nf).takeWhile fun k => (completedIn evs (t, k)).isSome).length
 
-def checkStep (pre : List Event) (ev : Event) (prev : Option Int) (o : Obs) : Option String :=
+def lexLt (a b : Fid) : Bool := a.1 < b.1 || (a.1 == b.1 && a.2 < b.2)
+
+/-- what the expression may hold after `ev` (the last event of `evs`), given what it held before:
+a completed result; never one that lies before the previous one (older evaluation, or earlier value
+of the same generator); after a `tick` — the loop is idle — the last of the results the NEWEST
+evaluation has produced so far, if it has produced any -/
+def checkStep (nf : Nat) (pre : List Event) (ev : Event) (prev : Option Int) (o : Obs) : Option String :=
   let evs := pre ++ [ev]
+  let newest := nEvals evs - 1
+  let j := prefixDone nf evs newest
   match o.value with
-  | none => if ev = .tick && allCompleted evs then some "expression still Undefined although every evaluation has completed" else none
+  | none =>
+    if ev = .tick && j > 0 then some s!"expression still Undefined although evaluation {newest} has produced a result"
+    else none
   | some v =>
-    match evalOf evs v with
-    | none => some s!"expression holds {v}, which no completed evaluation has produced"
-    | some t =>
-      let back := match prev.bind (evalOf evs) with
-        | some t0 => decide (t < t0)
+    match sourceOf nf evs v with
+    | none => some s!"expression holds {v}, which no completed awaitable has produced"
+    | some f =>
+      let back := match prev.bind (sourceOf nf evs) with
+        | some f0 => lexLt f f0
         | none => false
-      if back then some s!"expression went back to the result of the older evaluation {t}"
-      else if ev = .tick && allCompleted evs && t != (resultsOf evs).length then
-        some s!"expression holds the result of evaluation {t}, the latest is {(resultsOf evs).length}"
+      if back then some s!"expression went back to the older result {v} of awaitable {f}"
+      else if ev = .tick && j > 0 && f != (newest, j - 1) then
+        some s!"expression holds the result of awaitable {f} when idle, the newest evaluation {newest} has produced {j} result(s)"
       else none
 
-def specHistoryAux : List Event → List (Event × Obs) → Option Int → Nat → Nat × Option String
+def specHistoryAux (nf : Nat) : List Event → List (Event × Obs) → Option Int → Nat → Nat × Option String
   | _, [], _, n => (n, none)
   | pre, (ev, o) :: rest, prev, n =>
-    match checkStep pre ev prev o with
+    match checkStep nf pre ev prev o with
     | some m => (n, some s!"event {n} ({repr ev}): {m}")
-    | none => specHistoryAux (pre ++ [ev]) rest o.value (n + 1)
+    | none => specHistoryAux nf (pre ++ [ev]) rest o.value (n + 1)
 
-def specHistory (pre : List Event) (l : List (Event × Obs)) (n : Nat) : Nat × Option String :=
-  specHistoryAux pre l none n
+def specHistory (nf : Nat) (pre : List Event) (l : List (Event × Obs)) (n : Nat) : Nat × Option String :=
+  specHistoryAux nf pre l none n
 
-def eventLabels (s : St) : Event → List String
-  | .set _ => ["rx:set"]
+def eventLabels (nf : Nat) (s : St) : Event → List String
+  | .set => [if nf = 1 then "rx:set" else "rx:set:generator"]
   | .tick => if s.ready.isEmpty then ["rx:tick:idle"] else ["rx:tick"]
-  | .complete t _ =>
-    match s.futs t with
-    | .pending (some _) => [if s.currentTask = some t then "rx:complete:current" else "rx:complete:superseded"]
+  | .complete t k _ =>
+    match s.futs (t, k) with
+    | .pending (some _) =>
+      [if s.currentTask = some t then "rx:complete:current" else
+         (if k > 0 then "rx:complete:superseded-generator-between-yields" else "rx:complete:superseded")]
     | .pending none => ["rx:complete:not-awaited-yet"]
     | .done _ => ["rx:complete:already-done"]
 
